@@ -10,10 +10,10 @@ ID = "C07"
 LEVEL = "exploration"
 ENGINE = "E1"
 TECHNIQUE = "bounded exhaustive enumeration of rules (every operator leading) x listings x both search modes on the real code; every reported match decoded against the record offset table and the reference match relation"
-RULE = ("rules: the complete C02 (repetition), C04 ($not) and C05 (capture) rule families, the depth-1 C03 operator trees, "
+RULE = ("rules: the C02 (repetition) and C04 ($not) rule families (quick: every third rule; thorough: all), the complete C05 (capture) family, the depth-1 C03 operator trees, "
         "and an @any family using the shipped tests/macros/jasm_macros.yaml (@any as mnemonic, as every operand position "
-        "including one past the last operand, repeated, inside $deref) (every 5th $not rule also on listings with 16-digit addresses) x EVERY listing of each family's bounded listing set "
-        "x all-matches and first-match mode x full-text and address-only results. Oracle per reported match: starts at a "
+        "including one past the last operand, repeated, inside $deref) (every 5th $not rule also on listings with 16-digit addresses, every 7th on listings with zero-padded addresses; the C01 single-item rules under substring and full-match flags on listings with an address spelling a mnemonic) x EVERY listing of each family's bounded listing set "
+        "x all-matches and first-match mode x full-text and address-only results. Also: listings of 32800/65600 (thorough ..131200) instructions with the only occurrence at every block-boundary position, and single matches covering 150..2000 instructions (full text must be the whole run). Oracle per reported match: starts at a "
         "record start offset and ends at a record end offset of the stream; the covered instruction span is in the "
         "reference matcher's relation (so no element matched across an operand, field or instruction boundary); the "
         "address-only result equals the address of the first covered instruction and occurs in the input. Non-trivial = "
@@ -24,6 +24,7 @@ LEVEL_TEXT = ("All rules of the listed families x all listings of their bounded 
 LEVEL_NOTE = "Trusted: mc/refmodel.py; record offset table computed from the decoded instruction list."
 
 W = ("aligned", "genuine", "addr")
+ANY_MACROS_REL = "<repo>/tests/macros/jasm_macros.yaml"      # recorded in cases (independent of where the tree lives)
 ANY_MACROS = os.path.join(REPO, "tests/macros/jasm_macros.yaml")
 ALPHA_ANY = [("mov", ["%rax", "%rbx"]), ("push", ["%rax"]), ("ret", []), ("mov", ["0x8(%rax)", "%rbx"]),
              ("imul", ["$0x10", "%rax", "%rbx"])]
@@ -68,12 +69,22 @@ def _mods():
 def all_rules(tier):
     rules = []
     for name, mod in _mods().items():
-        for rc in mod.all_rules(tier):
+        for k, rc in enumerate(mod.all_rules(tier)):
+            if tier == "quick" and name in ("C02", "C04") and k % 3:
+                continue    # quick: every third rule of the two largest families (they are explored in full by their own checks)
             if name == "C03" and not (rc.family.startswith("I1") or rc.family.startswith("O/only") or rc.family.startswith("D/")):
                 continue
             rules.append(e1.RuleCase(f"{name}:{rc.family}", rc.pattern, f"{name}:{rc.lset}", cfgs=rc.cfgs[:1], want=W))
-    # 64-bit addresses (16 hex digits, kernel style) and 1-digit addresses side by side
+    import importlib
     c04 = _mods()["C04"]
+    # single items with operands (the C01 family) under substring and full-match mnemonics, on the C01 listings whose
+    # addresses include one that spells a mnemonic ("add")
+    c01 = importlib.import_module("checks.C01")
+    for r in list(c01.f1_rules(1))[::1]:
+        rules.append(e1.RuleCase("C01:F1", r, "c01main", cfgs=((False, False), (True, False), (True, True)), want=W))
+    for rc in c04.instr_rules(tier)[::7]:
+        rules.append(e1.RuleCase("padded:" + rc.family, rc.pattern, "padded", want=W))
+    # 64-bit addresses (16 hex digits, kernel style) and 1-digit addresses side by side
     for rc in c04.instr_rules(tier)[::5]:
         rules.append(e1.RuleCase("addr64:" + rc.family, rc.pattern, "addr64", want=W))
     return rules
@@ -89,6 +100,8 @@ def build_lsets(h, tier):
         for k, v in mod.build_lsets(h, tier).items():
             ls[f"{name}:{k}"] = v
     ls["any"] = e1.ListingSet(h, ALPHA_ANY, 3)
+    ls["c01main"] = e1.ListingSet(h, e1.ALPHA_MAIN, 2)
+    ls["padded"] = e1.ListingSet(h, _mods()["C04"].ALPHA_I, 3, addrs=["00401000", "00401003", "0040100a"])   # zero-padded addresses
     ls["addr64"] = e1.ListingSet(h, _mods()["C04"].ALPHA_I, 3, addrs=["ffffffff81000000", "ffffffff81000003", "ffffffff8100000a"])
     return ls
 
@@ -121,7 +134,44 @@ def first_mode_check(h, res, known, rules, lsets, shard):
                           "size": len(att) * 10 + len(str(rc.pattern))}, known)
 
 
+LONGLIST = [(["mov", "push", "ret"], [("mov", ["%rax", "%rbx"]), ("push", ["%rax"]), ("ret", [])]),
+            ([{"$or": ["call", "jmp"]}, {"mov": ["rbx"]}], [("call", ["507fff"]), ("mov", ["%rbx", "%rax"])])]
+
+
+def long_text_check(h, mop, path, n, pos, window):
+    """full-text result of the long family: exactly the window's records, aligned"""
+    if pos is None:
+        return []
+    full = h.match(mop, path, mode="all")
+    exp = rm.encode([e1.norm_inst(f"{0x400000 + 3 * (pos + k):x}", m, o) for k, (m, o) in enumerate(window)])
+    return [] if full == [exp] else [("long-text", exp, [t[:120] for t in full[:3]])]
+
+
+def run_big_match(shard, h, res, known):
+    """one match covering hundreds of instructions: the reported text is the whole run (no cap), in both modes"""
+    from mc.common import fmt_listing, make_rule_doc
+    jobs = [(k, item) for k in (150, 400, 700, 2000) for item in ({"nop": {"times": {"min": 2, "max": 3000}}}, {"$or": ["nop", "mov"], "times": {"min": 2, "max": 3000}})]
+    for ji in range(shard["lo"], len(jobs), shard["n"]):
+        k, item = jobs[ji]
+        att = [("400000", "ret", [])] + [(f"{0x400001 + i:x}", "nop", []) for i in range(k)] + [(f"{0x400001 + k:x}", "ret", [])]
+        path = h.write(f"bigmatch_{os.getpid()}.s", fmt_listing(att))
+        pat = ["ret", item, "ret"]
+        mop = h.mop(make_rule_doc(pat))
+        exp = rm.encode([e1.norm_inst(*x) for x in att])
+        for mode in ("all", "first"):
+            res.evaluations += 1
+            res.nontrivial += 1
+            got = h.match(mop, path, mode=mode)
+            if got != [exp]:
+                res.fail({"clause": "big-match-text", "family": "bigmatch", "rule": make_rule_doc(pat), "run_length": k, "mode": mode,
+                          "expected": f"one match of {len(exp)} characters", "observed": [f"{len(t)} characters ending {t[-40:]!r}" for t in got],
+                          "size": k}, known)
+
+
 def run_shard(shard, tier, h, res, known):
+    e1.run_long_family(h, res, known, shard, LONGLIST, [32800, 65600] if tier == "quick" else [4200, 8300, 32800, 65600, 131200], prop=ID,
+                       extra_check=long_text_check)
+    run_big_match(shard, h, res, known)
     lsets = e1.get_lsets(h, tier, build_lsets)
     rules = all_rules(tier)
     e1.run_rules(h, res, known, rules, lsets, shard, prop=ID)
@@ -138,7 +188,7 @@ def run_shard(shard, tier, h, res, known):
             mop = h.mop(doc, macros=[ANY_MACROS])
         except Exception as e:
             res.evaluations += 1
-            res.fail({"clause": "compile", "rule": doc, "macros": [ANY_MACROS], "listing": [], "family": "any",
+            res.fail({"clause": "compile", "rule": doc, "macros": [ANY_MACROS_REL], "listing": [], "family": "any",
                       "expected": "compiles", "observed": repr(e), "size": 0}, known)
             continue
         ref = rm.Ref()
@@ -148,7 +198,7 @@ def run_shard(shard, tier, h, res, known):
             if rfound:
                 res.nontrivial += 1
             for clause, exp, obs in problems:
-                res.fail({"clause": clause, "rule": doc, "refpattern": refpat, "macros": [ANY_MACROS], "family": "any",
+                res.fail({"clause": clause, "rule": doc, "refpattern": refpat, "macros": [ANY_MACROS_REL], "family": "any",
                           "listing": [[a, m, list(o)] for a, m, o in att], "expected": exp, "observed": obs,
                           "size": len(att) * 10 + len(str(pat))}, known)
 
@@ -166,11 +216,18 @@ def controls(h):
 
 def replay(case, h):
     from mc.common import fmt_listing
+    if case.get("family") == "longlisting":
+        return e1.replay_long_case(case, h)
+    if case.get("family") == "bigmatch":
+        k = case["run_length"]
+        att = [("400000", "ret", [])] + [(f"{0x400001 + i:x}", "nop", []) for i in range(k)] + [(f"{0x400001 + k:x}", "ret", [])]
+        got = h.match(h.mop(case["rule"]), h.write("bigmatch_replay.s", fmt_listing(att)), mode=case["mode"])
+        return got != [rm.encode([e1.norm_inst(*x) for x in att])], f"{[len(t) for t in got]} characters"
     if case.get("family") == "any":
         att = [(a, m, list(o)) for a, m, o in case["listing"]]
         norm = [e1.norm_inst(*x) for x in att]
         try:
-            mop = h.mop(case["rule"], macros=case["macros"])
+            mop = h.mop(case["rule"], macros=[m.replace("<repo>", REPO) for m in case["macros"]])
         except Exception as e:
             return True, repr(e)
         problems, rfound = e1.analyse(h, mop, rm.Ref(), case["refpattern"], h.listing_file(fmt_listing(att)), norm,
